@@ -413,8 +413,38 @@ func c04ReuseEval(cs *core.Case) (bool, string, string) {
 	return true, "", ""
 }
 
+// c04ShortEval (part S): Ints = [j, k]. The first k bytes of witness j are
+// detected twice: once after an unrelated long text, once after the whole
+// witness j (whose bytes continue the short input). Same input, two histories:
+// the answers must agree (a scratch area that keeps the tail of the previous
+// input shows exactly here).
+func c04ShortEval(cs *core.Case) (bool, string, string) {
+	W := corpus(c04ctx)
+	j, k := cs.Ints[0], cs.Ints[1]
+	if len(W[j].Data) <= k {
+		return true, "skip", ""
+	}
+	short := W[j].Data[:k]
+	neutral := []byte("xxxxxxxxxxxxxxxxxxxxxxxxxxxxxxxxxxxxxxxxxxxxxxxxxxxxxxxxxxxxxxxx plain words only\n")
+	var ans [2]string
+	for h := 0; h < 2; h++ {
+		setLimit(0)
+		if h == 0 {
+			mimetype.Detect(append([]byte{}, neutral...))
+		} else {
+			mimetype.Detect(append([]byte{}, W[j].Data...))
+		}
+		ans[h] = chainStr(mimetype.Detect(append([]byte{}, short...)))
+	}
+	if ans[0] != ans[1] {
+		return false, "C04/earlier-detection-changes-answer/short-input", fmt.Sprintf("the %d-byte input %s is %s after an unrelated text was detected, but %s after %q (which starts with the same bytes) was detected", k, core.Quote(short), ans[0], ans[1], W[j].Name)
+	}
+	return true, "", ""
+}
+
 func c04Setup(c *core.Ctx) {
 	c04ctx = c
+	c.Register("c04short", c04ShortEval)
 	c.Register("c04reuse", c04ReuseEval)
 	c.Register("c04pair", c04PairEval)
 	c.Register("c04", c04Eval)
@@ -587,6 +617,26 @@ func c04Run(c *core.Ctx) {
 			c.Check(buf)
 		}
 		c.SampleCase("beyond-limit", bc)
+	}
+	// Part S: short heads of every witness after the whole witness
+	{
+		W := corpus(c)
+		sc := &core.Case{Kind: "c04short", Ints: []int{0, 0}}
+		var n uint64
+		for j := range W {
+			if len(W[j].Data) > 1<<16 || !c.Next() || c.Expired() {
+				continue
+			}
+			for k := 1; k <= 20 && k < len(W[j].Data); k++ {
+				sc.Ints[0], sc.Ints[1] = j, k
+				c.R.Evals++
+				c.R.Transitions += 4
+				n++
+				c.Check(sc)
+			}
+		}
+		c.Note("S.short-heads", n)
+		c.SampleCase("S:short-head-after-whole-witness", sc)
 	}
 	// Part R: one caller buffer re-used for the heads of all ordered witness pairs
 	{
